@@ -365,6 +365,12 @@ func (ex *Exec) run() (err error) {
 	// interface method it implements), those preconditions are assumed first and the function's own
 	// preconditions must follow from them.
 	hasRefined := len(ex.cons) > ex.ownCons
+	ifaceFramed := false
+	for ci := 0; ci < ex.ownCons; ci++ {
+		if ex.cons[ci].Kind == "interface" {
+			ifaceFramed = true
+		}
+	}
 	for ci := ex.ownCons; ci < len(ex.cons); ci++ {
 		c := ex.cons[ci]
 		e := ex.envFor(st, c)
@@ -387,6 +393,11 @@ func (ex *Exec) run() (err error) {
 			} else {
 				st.sc.assert(e.eval(cl.Expr))
 			}
+		}
+		// a function that implements an interface method (its contract includes the interface contract)
+		// may write only what the interface contract allows, whatever its own assigns clause says
+		if ifaceFramed && c.Kind != "interface" {
+			continue
 		}
 		for _, cl := range c.Assigns {
 			ex.assign = append(ex.assign, e.evalAssigns(cl.Expr)...)
